@@ -63,13 +63,14 @@ def faults():
         for k in (nf + 1, nf + 3):
             out.append(('facet', body, k))
     # 2/6. lattices
-    for kind in ('no-option', 'option-dims', 'array-short', 'array-long', 'ranges-dims'):
+    for kind in ('no-option', 'option-dims', 'array-short', 'array-long', 'ranges-dims', 'ranges-dims-trivial-middle', 'option-dims-trivial-first'):
         out.append(('lattice', kind))
     # 7. importance cards
     for kind in ('short', 'long-mismatch', 'two-cards'):
         out.append(('imp', kind))
     # 8. mixed signs
-    out.append(('mixed',))
+    for order in ('pos-neg', 'neg-pos', 'neg-neg-pos', 'pos-pos-neg'):
+        out.append(('mixed', order))
     # 9. --lattice argument
     for s in ('abc', '2', '2,', '2,0', '2,0:1:2', '2,a:b', '2,0:1,0:1,0:1,0:1', 'x,0:1', '2,0:1.5', '2,0:', '2,:1', ',0:1'):
         out.append(('lattice-arg', s))
@@ -138,6 +139,11 @@ def inject(f):
             lat.fill = dk.LatFill([(0, 1), (0, 1)], [1, 1, 1])
         elif k == 'array-long':
             lat.fill = dk.LatFill([(0, 1), (0, 0)], [1, 1, 1, 1])
+        elif k == 'ranges-dims-trivial-middle':
+            lat.fill = dk.LatFill([(0, 1), (0, 0), (0, 1)], [1] * 4)      # the third range is not trivial: the lattice has no third direction
+        elif k == 'option-dims-trivial-first':
+            lat.fill = 1
+            d.lattice_opt = ['2,0:0,0:1,-1:1']
         else:
             lat.fill = dk.LatFill([(0, 1), (0, 1), (0, 1)], [1] * 8)      # 3 non-trivial ranges for a 2-D lattice
         return d, pre
@@ -155,7 +161,8 @@ def inject(f):
             d.imp_cards['p'] = [Fr(1), Fr(0)]
         return d, pre
     if kind == 'mixed':
-        d.mats = {1: [('13027', '0.5'), ('8016', '-0.5')]}
+        signs = {'pos-neg': ['', '-'], 'neg-pos': ['-', ''], 'neg-neg-pos': ['-', '-', ''], 'pos-pos-neg': ['', '', '-']}[f[1]]
+        d.mats = {1: [(z, sg + '0.25') for z, sg in zip(['13027', '8016', '26056'], signs)]}
         return d, pre
     if kind == 'lattice-arg':
         d.lattice_opt = [f[1]]
